@@ -120,8 +120,23 @@ pub fn check_value(o: &mut Outcome, instrs: &[Instruction], has_ph: bool, label:
     let listing = program.to_instructions();
     // the debug serializer never fails: it returns (a panic is caught by the worker and reported as such)
     let debug_text = program.to_quil_or_debug();
+    // ... and the placeholder law holds for every instruction on its own, at every nesting level it is printed from
     for i in instrs {
-        let _ = i.to_quil_or_debug();
+        let dbg = i.to_quil_or_debug();
+        let mut ph = PhCtx::default();
+        let holds = contains_ph(&c02::to_abs_with(i, &mut AbsCtx { mode: ExprMode::Structure, ph: &mut ph }));
+        match i.to_quil() {
+            Ok(t) if holds => o.violate(
+                Violation::new("serialization fails when a placeholder is present", json!("Err(Unresolved*Placeholder)"), json!(t)).note(format!("{label}: one instruction"))),
+            Err(e) if !holds => o.violate(
+                Violation::new("serialization succeeds without placeholders", json!("Ok"), json!(e.to_string())).note(format!("{label}: one instruction"))),
+            Err(e) if !matches!(e, ToQuilError::UnresolvedQubitPlaceholder | ToQuilError::UnresolvedLabelPlaceholder) => o.violate(
+                Violation::new("serialization fails with an unresolved-placeholder error", json!("Unresolved*Placeholder"), json!(e.to_string())).note(format!("{label}: one instruction"))),
+            _ => {}
+        }
+        if holds && !dbg.contains("Placeholder") {
+            o.diverge(format!("the debug form {dbg:?} does not show the placeholder"));
+        }
     }
     let mut v = Verdict { text: None, debug_text, fails: false, parsed: false, equivalent: false };
     match program.to_quil() {
@@ -431,7 +446,7 @@ pub fn drive(ctx: &Ctx) -> Summary {
     let mut rng = util::rng(ctx.seed, 4);
     let mut sum = Summary::default();
     for h in 0..n {
-        let with_ph = h % 5 == 4;
+        let with_ph = h % 3 == 2;
         let v = r_instr(&mut rng, depth, true, with_ph, false);
         let has_ph = contains_ph(&v);
         let mut ph = PhCtx::default();
